@@ -10,7 +10,9 @@ package vharness
 import (
 	"context"
 	"fmt"
+	"os"
 	"runtime"
+	"strings"
 	"sync"
 	"sync/atomic"
 	"time"
@@ -263,7 +265,16 @@ var racePrograms = []raceProg{
 	}},
 }
 
+// raceDeadline is a generous wall-clock bound for one real-time client program (normally well under a
+// second); reaching it is never a verdict on the property, only "inconclusive", with the parked stacks.
+var raceDeadline = 10 * time.Minute
+
 func epRace(c *RunCtx, pi int, seed uint64, procs int) *Result {
+	if v := os.Getenv("VH_RACE_DEADLINE"); v != "" {
+		if d, err := time.ParseDuration(v); err == nil {
+			raceDeadline = d
+		}
+	}
 	e := NewEnv(c.Prop)
 	p := racePrograms[pi]
 	r := &Rng{s: seed | 1}
@@ -276,12 +287,24 @@ func epRace(c *RunCtx, pi int, seed uint64, procs int) *Result {
 	case n := <-done:
 		e.Stat("api_calls", float64(n))
 		e.Nontrivial()
-	case <-time.After(60 * time.Second):
+	case <-time.After(raceDeadline):
 		// a real-time hang: not this property's verdict; reported as inconclusive (the child is then killed by the driver)
 		vhook.SetMode(vhook.Off)
 		runtime.GOMAXPROCS(old)
 		res := e.Result(nil)
-		res.Inc = "race program " + p.name + " did not finish within 60 s"
+		var parked []string
+		for _, g := range allStacks("") {
+			if strings.Contains(g, modPath) || strings.Contains(g, "vharness.") {
+				if len(g) > 900 {
+					g = g[:900]
+				}
+				parked = append(parked, g)
+			}
+		}
+		if len(parked) > 14 {
+			parked = parked[:14]
+		}
+		res.Inc = "race program " + p.name + " did not finish within " + raceDeadline.String() + "\n" + strings.Join(parked, "\n\n")
 		return res
 	}
 	vhook.SetMode(vhook.Off)
